@@ -644,7 +644,13 @@ def statics_e2e(res, ctx, tags, feat='off', limit=24):
             return [dict(tags=tags, kind='e2e-setup', case=0, detail='libmime rlib not found under ' + deps)], 0
         extern = ['--extern', 'mime=' + rl[0], '-L', 'dependency=' + deps]
     jobs = []
+    # a scenario may run several times into one OUT_DIR: what is kept on disk is the state after its LAST run
+    last = {}
     for k, m in metas:
+        last[m.get('case')] = k
+    for k, m in metas:
+        if last.get(m.get('case')) != k:
+            continue
         i = by_line.get(k)
         if i is None or len(jobs) >= limit:
             continue
